@@ -102,6 +102,18 @@ pub fn run(ctx: &mut Ctx, replay: Option<&str>) {
                 for d in 0..depth {
                     v = if (d + r.below(2)) % 2 == 0 { json!({"lvl": v}) } else { json!([v]) };
                 }
+                // the names along the chain: ASCII, or multi-byte in every phase (whatever renders the position of the offending
+                // member cuts long paths somewhere)
+                if r.chance(1, 2) {
+                    let fill = ["\u{20ac}", "\u{e9}", "\u{1f600}", "\u{4e2d}\u{6587}"];
+                    let mut w = json!({"leaf": "bottom", "n": [1, {"m": true}]});
+                    for d in 0..r.range(3, 14) {
+                        let name = format!("{}{}", "x".repeat(r.below(4)), r.pick(&fill).repeat(r.range(1, 12)));
+                        w = if d % 4 == 3 { json!([w]) } else { json!({name: w}) };
+                    }
+                    v = w;
+                    ctx.count("claims.with_multibyte_named_chain");
+                }
                 if let Some(m) = bad.claims.as_object_mut() {
                     m.insert("deep".into(), v);
                 }
